@@ -377,9 +377,13 @@ func c16Conflated(c *core.Ctx, n, pre int, order []int, custom bool) {
 				c.Violate("conflated-not-cancelled", "after step %d (%d) the result must be cancelled but is live; %s", step, i, desc)
 				return
 			}
-		} else if res.Err() != nil {
-			c.Violate("conflated-cancelled-early", "after step %d (%d) an input is still live and cancel was not called, but the result is cancelled; %s", step, i, desc)
-			return
+		} else {
+			// (a moment of grace: a wrong cancellation would arrive asynchronously)
+			time.Sleep(150 * time.Microsecond)
+			if res.Err() != nil {
+				c.Violate("conflated-cancelled-early", "after step %d (%d) an input is still live and cancel was not called, but the result is cancelled; %s", step, i, desc)
+				return
+			}
 		}
 	}
 }
@@ -637,9 +641,12 @@ func c16DuringConstruction(c *core.Ctx) {
 						c.Violate("conflated-not-cancelled", "every input is cancelled (one of them while ConflatedContext was being built: %v) but the result stays live; %s", inside, desc)
 						return
 					}
-				} else if res.Err() != nil {
-					c.Violate("conflated-cancelled-early", "after step %d an input is still live but the result is cancelled; %s", step, desc)
-					return
+				} else {
+					time.Sleep(100 * time.Microsecond)
+					if res.Err() != nil {
+						c.Violate("conflated-cancelled-early", "after step %d an input is still live but the result is cancelled; %s", step, desc)
+						return
+					}
 				}
 			}
 		}
